@@ -5,7 +5,7 @@ use std::io::Cursor;
 fn stub_fmt(_a: core::fmt::Arguments<'_>) -> String { String::new() }
 fn valid_type(c: u8) -> bool { c <= 3 || (c >= 5 && c <= 10) || c == 13 || c == 14 || c == 16 || c == 17 }
 
-//@unit props=C06 label=P tier=quick fn=model_vertex_declarations::VertexElement(derive read) stubs=fmt::format
+//@unit props=C06 label=P tier=thorough fn=model_vertex_declarations::VertexElement(derive read) stubs=fmt::format
 //@desc all 8-byte contents: stream, offset, type, usage, usage_index = bytes 0..4, 3 padding bytes skipped (8 consumed); Err exactly when the type or usage code is not a defined one
 #[kani::proof]
 #[kani::unwind(4)]
@@ -33,35 +33,49 @@ fn any_element() -> VertexElement {
     VertexElement { stream: kani::any(), offset: kani::any(), vertex_type: vt, vertex_usage: vu, usage_index: kani::any() }
 }
 
-//@unit props=C07 label=S tier=quick fn=model_vertex_declarations::{vertex_element_writer,vertex_element_parser} bound="one declaration of exactly 2 elements (streams != 0xFF), all field values" stubs=fmt::format
-//@desc the writer emits the elements in order, then one 0xFF slot, and occupies exactly 17 slots of 8 bytes per declaration; the parser returns the same elements and consumes the same 136 bytes
+//@unit props=C07 label=S tier=quick fn=model_vertex_declarations::vertex_element_writer bound="one declaration of exactly 2 elements, all field values" stubs=fmt::format
+//@desc the writer emits the elements in order, then one 0xFF slot, and occupies exactly 17 slots of 8 bytes per declaration
 #[kani::proof]
-#[kani::unwind(20)]
+#[kani::unwind(6)]
 #[kani::stub(alloc::fmt::format, stub_fmt)]
-fn k_vertex_declaration_roundtrip_2() {
+fn k_vertex_declaration_writer_2() {
     let e0 = any_element();
     let e1 = any_element();
-    kani::assume(e0.stream != 0xFF && e1.stream != 0xFF);
     let decls = vec![VertexDeclaration { elements: vec![e0, e1] }];
     let mut buf = [0u8; 144];
     let mut w = Cursor::new(&mut buf[..]);
     match vertex_element_writer(&decls, &mut w, binrw::Endian::Little, ()) { Ok(()) => {}, Err(e) => { core::mem::forget(e); assert!(false, "write"); } }
     assert!(w.position() == 17 * 8, "17 slots of 8 bytes per declaration");
     assert!(buf[0] == e0.stream && buf[1] == e0.offset && buf[2] == e0.vertex_type as u8 && buf[3] == e0.vertex_usage as u8 && buf[4] == e0.usage_index, "element 0 first");
-    assert!(buf[8] == e1.stream && buf[9] == e1.offset && buf[12] == e1.usage_index, "element 1 second");
+    assert!(buf[8] == e1.stream && buf[9] == e1.offset && buf[10] == e1.vertex_type as u8 && buf[11] == e1.vertex_usage as u8 && buf[12] == e1.usage_index, "element 1 second");
     assert!(buf[16] == 0xFF, "end-of-stream slot follows the elements");
+    kani::cover!(true, "reachable");
+    core::mem::forget(decls);
+}
+
+//@unit props=C06 label=S tier=thorough fn=model_vertex_declarations::vertex_element_parser bound="count 1; one element (stream, offset, usage_index symbolic; type Half4, usage Position) followed by a 0xFF slot, in a 136-byte block" stubs=fmt::format
+//@desc the parser returns the element and consumes exactly 17 slots of 8 bytes
+#[kani::proof]
+#[kani::unwind(6)]
+#[kani::stub(alloc::fmt::format, stub_fmt)]
+fn k_vertex_declaration_parser_1() {
+    let mut buf = [0u8; 136];
+    let (st, of, ui): (u8, u8, u8) = (kani::any(), kani::any(), kani::any());
+    kani::assume(st != 0xFF);
+    buf[0] = st; buf[1] = of; buf[2] = 14; buf[3] = 0; buf[4] = ui;
+    buf[8] = 0xFF;
     let mut r = Cursor::new(&buf[..]);
     match vertex_element_parser(&mut r, binrw::Endian::Little, (1,)) {
         Ok(d) => {
-            assert!(d.len() == 1 && d[0].elements.len() == 2, "one declaration with two elements");
-            assert!(d[0].elements[0] == e0 && d[0].elements[1] == e1, "same elements in order");
+            assert!(d.len() == 1 && d[0].elements.len() == 1, "one declaration with one element");
+            let e = d[0].elements[0];
+            assert!(e.stream == st && e.offset == of && e.usage_index == ui && e.vertex_type == VertexType::Half4 && e.vertex_usage == VertexUsage::Position, "the stored element");
             assert!(r.position() == 17 * 8, "parser consumes the 17 slots");
             core::mem::forget(d);
         }
         Err(e) => { core::mem::forget(e); assert!(false, "parse"); }
     }
     kani::cover!(true, "reachable");
-    core::mem::forget(decls);
 }
 
 //@unit props=C06 label=P tier=quick fn=model_vertex_declarations::get_vertex_type_size
